@@ -14,6 +14,7 @@ pub mod c14;
 pub mod c15;
 pub mod c16;
 pub mod c17;
+pub mod c18;
 pub mod c19;
 pub mod c20;
 
@@ -48,6 +49,7 @@ pub fn plan(prop: &str, tier: Tier) -> Option<Plan> {
     "C15" => Some(c15::plan(tier)),
     "C16" => Some(c16::plan(tier)),
     "C17" => Some(c17::plan(tier)),
+    "C18" => Some(c18::plan(tier)),
     "C19" => Some(c19::plan(tier)),
     "C20" => Some(c20::plan(tier)),
     _ => None,
